@@ -32,6 +32,7 @@ var c08Entropy = []struct{ Fn, Callee, Sink, Why string }{
 	{"processMessage", "time.Now", "DefaultRequest.CreatedAt", "time stamp of the node-issued hand-over/restart request; lands only in time.Time fields the property projects away"},
 	{"NewOperation", "time.Now", "Operation.CreatedAt", "creation time of the pool entry (not part of the round state; the id is payload-derived)"},
 	{"buildMessage", "github.com/google/uuid.", "Message.ID", "id of a board-bound message this node posts"},
+	{"send", "github.com/google/uuid.", "Message.ID", "id the file board assigns to a message being posted (transport; the handler never reads Message.ID)"},
 	{"GetMessages", "time.Now", "", "kafka read deadline (transport, not state)"},
 }
 
@@ -496,7 +497,10 @@ func c08Isolation(c *Ctx) {
 				iter = ia
 			}
 		})
-		save := ssax.Calls(ps, false, func(ci ssa.CallInstruction) bool { o := ssax.CalleeObj(ci); return o != nil && o.Name() == "SaveSignatures" })
+		save := ssax.Calls(ps, false, func(ci ssa.CallInstruction) bool {
+			o := ssax.CalleeObj(ci)
+			return o != nil && o.Name() == "SaveSignatures"
+		})
 		ok := len(stores) == 1 && len(save) == 1
 		if ok {
 			// no condition inside the loop can skip the overwrite
